@@ -111,6 +111,18 @@ class ValueMap(object):
             self.cache[key] = r
         return r
 
+    def count_defined(self, arr):
+        """number of pixels of a real array the mode class calls defined"""
+        np = self.np
+        if self.kind == "alpha":
+            return int(np.count_nonzero(arr[..., 3]))
+        if self.kind == "nan":
+            nanpix = np.isnan(arr).any(axis=2) if self.ch else np.isnan(arr)
+            return int(nanpix.size - np.count_nonzero(nanpix))
+        if self.kind == "zero":
+            return int(np.count_nonzero(arr))
+        return int(arr.shape[0] * arr.shape[1])
+
     def type_ok(self, arr, h, w):
         return arr.dtype.kind == self.dtype.kind and arr.dtype.itemsize == self.dtype.itemsize and tuple(arr.shape) == self.shape(h, w)
 
@@ -203,12 +215,22 @@ CFG_HEAD = """CONSTANTS
  FancySel <- MCFancy
  Formats <- MCFormats
  FileTiles <- MCFileTiles
+ PairModes <- MCPairModes
+ PairSrc <- MCPairSrc
 CHECK_DEADLOCK FALSE
 """
 
 CFG_BUF = "SPECIFICATION BufSpec\n" + CFG_HEAD + """INVARIANT BTypeOK
 INVARIANT EveryCallObeysC15
 INVARIANT EmitB
+"""
+
+CFG_PAIR = "SPECIFICATION PairSpec\n" + CFG_HEAD + """INVARIANT PTypeOK
+INVARIANT PairAllUndefinedNeverStored
+INVARIANT EmitP
+PROPERTY LiveBuffersAreIndependent
+PROPERTY MissingTileOpensAllUndefined
+PROPERTY PositionStoredFromItsOwnBuffer
 """
 
 CFG_FILE = "SPECIFICATION FileSpec\n" + CFG_HEAD + """INVARIANT FTypeOK
@@ -227,7 +249,7 @@ def buf_job(name, h, w, src, prior, fancy, imgforms, closed, workers):
     defs = [("MCSrc", lit_set(src)), ("MCPrior", lit_set(prior)),
             ("MCFancy", lit_set(fancy)),
             ("MCFileTiles", "{}"), ("MCClasses", "AllClasses"), ("MCImgForms", lit_set(imgforms)), ("MCFormats", "{}"),
-            ("MCExplore", "Tiles" if closed else "MCPrior"), "ASSUME EmitTables"]
+            ("MCExplore", "Tiles" if closed else "MCPrior"), ("MCPairModes", "{}"), ("MCPairSrc", "{}"), "ASSUME EmitTables"]
     cfg = CFG_BUF % {"H": h, "W": w}
     return {"name": name, "module": name, "text": tla.module(name, ["MCMask"], defs), "cfg": cfg, "h": h, "w": w, "kind": "buf",
             "workers": workers}
@@ -235,9 +257,17 @@ def buf_job(name, h, w, src, prior, fancy, imgforms, closed, workers):
 
 def file_job(name, h, w, tiles, formats, workers):
     defs = [("MCSrc", "{}"), ("MCPrior", "{}"), ("MCExplore", "{}"), ("MCFancy", "{}"), ("MCFileTiles", lit_set(tiles)), ("MCClasses", "{}"),
-            ("MCImgForms", '{"slice"}'), ("MCFormats", lit_set(formats))]
+            ("MCImgForms", '{"slice"}'), ("MCFormats", lit_set(formats)), ("MCPairModes", "{}"), ("MCPairSrc", "{}")]
     return {"name": name, "module": name, "text": tla.module(name, ["MCMask"], defs), "cfg": CFG_FILE % {"H": h, "W": w},
             "h": h, "w": w, "kind": "file", "workers": workers}
+
+
+def pair_job(name, h, w, modes, formats, src, workers):
+    """One PairSpec run: two tile positions, two live buffers, one PyramidIO."""
+    defs = [("MCSrc", "{}"), ("MCPrior", "{}"), ("MCExplore", "{}"), ("MCFancy", "{}"), ("MCFileTiles", "{}"), ("MCClasses", "{}"),
+            ("MCImgForms", '{"slice"}'), ("MCFormats", lit_set(formats)), ("MCPairModes", lit_set(modes)), ("MCPairSrc", lit_set(src))]
+    return {"name": name, "module": name, "text": tla.module(name, ["MCMask"], defs), "cfg": CFG_PAIR % {"H": h, "W": w},
+            "h": h, "w": w, "kind": "pair", "workers": workers}
 
 
 def start_tlc_jobs(ctx, jobs, timeout):
@@ -577,6 +607,222 @@ def replay_files(args):
 
 
 # ------------------------------------------------------------------------------------------------
+# replay of the two-position machine: two live buffers on one PyramidIO
+# ------------------------------------------------------------------------------------------------
+
+def replay_pairs(args):
+    """Walk every transition of PairSpec for one (format, mode) on one real PyramidIO: live buffers are the objects that
+    read_image(default='masked') returned or that update_image contexts yielded (entered / left explicitly, so that they can
+    nest and close in any order); after every call BOTH live buffers and both tile files are compared with TLC's state."""
+    tag, fmt, mode, basedir, path = args
+    repo.setup()
+    warnings.simplefilter("ignore")
+    import collections
+    from toasty.image import Image, ImageMode
+    from toasty.pyramid import PyramidIO, Pos
+    T = tables(path)
+    h, w, V = T["h"], T["w"], 2
+    n, base = h * w, V + 1
+    graph = T["graph"][(fmt, mode)]               # state -> [(call, state after)]
+    src_codes = T["src"][(fmt, mode)]
+    imap = ValueMap(mode)
+    bmode = "RGBA" if mode == "RGB" else mode
+    bmap = ValueMap("RGB-buffer" if mode == "RGB" else mode)
+    emode = getattr(ImageMode, mode)
+    sources = [Image.from_array(imap.concrete(decode(c, n, base), h, w, salt=i)) for i, c in enumerate(src_codes)]
+    corner = (slice(None), slice(None), slice(0, h), slice(0, w))
+    positions = {1: Pos(2, 1, 3), 2: Pos(2, 2, 0)}
+    problems = []
+    seen_keys = {}
+    stats = {"calls": 0, "resets": 0, "bad": 0, "via_update_image": 0, "nested": 0, "states": len(graph)}
+    R = {}
+
+    def bad(key, msg, rep):
+        stats["bad"] += 1
+        seen_keys[key] = seen_keys.get(key, 0) + 1
+        if seen_keys[key] <= 2 and len(problems) < 12:
+            problems.append(("V", key, msg, rep))
+
+    def reset():
+        stats["resets"] += 1
+        for hd in R.get("hand", {}).values():       # leave open contexts behind cleanly (their directory is abandoned)
+            if hd.get("cm") is not None:
+                try:
+                    hd["cm"].__exit__(None, None, None)
+                except Exception:  # noqa
+                    pass
+        d = os.path.join(basedir, "pair-%s-%s-%d" % (fmt, mode, stats["resets"]))
+        R["dir"] = d
+        R["pio"] = PyramidIO(d, default_format=fmt)
+        R["obs"] = PyramidIO(d, default_format=fmt)          # an independent observer of the tile files
+        R["hand"] = {}
+        R["trail"] = []
+
+    def tile_of(arr):
+        """abstract content of a full-size buffer / tile: the corner carries the pixels, everything else is undefined"""
+        if tuple(arr.shape[:2]) != (256, 256) or not bmap.type_ok(arr[:h, :w], h, w):
+            return None
+        t = bmap.project(arr[:h, :w].copy())
+        if bmap.count_defined(arr) != sum(1 for x in t if x != 0):
+            return None
+        return t
+
+    def execute(call):
+        pio = R["pio"]
+        if call[0] == "open":
+            k, p = call[1], call[2]
+            others = [hd for j, hd in R["hand"].items() if j != k]
+            ctx_ok = not any(hd["cm"] is not None and hd["pos"] == p for hd in others)
+            use_ctx = ctx_ok and (stats["calls"] % 3 != 0)
+            if use_ctx:
+                cm = pio.update_image(positions[p], default="masked", masked_mode=emode)
+                buf = cm.__enter__()
+                stats["via_update_image"] += 1
+                if any(hd["cm"] is not None for hd in others):
+                    stats["nested"] += 1
+            else:
+                cm = None
+                buf = pio.read_image(positions[p], default="masked", masked_mode=emode)
+            R["hand"][k] = {"buf": buf, "cm": cm, "pos": p}
+        elif call[0] == "mut":
+            k, op, i = call[1], call[2], call[3]
+            buf = R["hand"][k]["buf"]
+            if op == "fill":
+                sources[i - 1].fill_into_maskable_buffer(buf, *corner)
+            else:
+                sources[i - 1].update_into_maskable_buffer(buf, *corner)
+        else:
+            k = call[1]
+            hd = R["hand"].pop(k)
+            if hd["cm"] is not None:
+                hd["cm"].__exit__(None, None, None)
+            else:
+                pio.write_image(positions[hd["pos"]], hd["buf"])
+
+    def compare(call, exp):
+        """the real state against TLC's state after the call; returns True when they agree"""
+        ok = True
+        rep = {"format": fmt, "mode": mode, "history": list(R["trail"]), "specified_state": exp}
+        for k in (1, 2):
+            pos, code = exp[3 + k]
+            hd = R["hand"].get(k)
+            if pos == 0:
+                continue
+            want = decode(code, n, base)
+            got = tile_of(hd["buf"].asarray()) if hd is not None else None
+            if hd is None or hd["buf"].mode.name != bmode or got != want:
+                ok = False
+                mine = call[1] == k
+                bad("tiles:%s:%s" % (fmt, "live-buffer" if mine else "live-buffer-changed-by-other-tile"),
+                    "%s: after %s the live buffer %d (position %d) holds %s, specified %s%s"
+                    % (mode, list(call), k, pos, list(got) if got else got, list(want),
+                       "" if mine else " - the call was not about this buffer"), rep)
+        for p in (1, 2):
+            f = exp[1 + p]
+            tp = R["pio"].tile_path(positions[p], makedirs=False)
+            exists = os.path.exists(tp)
+            if exists != (f != -1):
+                ok = False
+                bad("tiles:%s:%s" % (fmt, "all-undefined-stored" if exists else "tile-not-stored"),
+                    "%s: after %s the tile file of position %d %s, specified %s"
+                    % (mode, list(call), p, "exists" if exists else "is missing", "absent" if f == -1 else list(decode(f, n, base))), rep)
+            elif exists and call[0] == "close":
+                img = R["obs"].read_image(positions[p], default="none")
+                got = tile_of(img.asarray()) if img is not None else None
+                if img is None or img.mode.name != bmode or got != decode(f, n, base):
+                    ok = False
+                    bad("tiles:%s:stored-tile" % fmt, "%s: after %s position %d is stored as %s, specified %s (what was put into its own buffer)"
+                        % (mode, list(call), p, list(got) if got else got, list(decode(f, n, base))), rep)
+        return ok
+
+    def step(call, nxt):
+        stats["calls"] += 1
+        R["trail"].append(list(call))
+        if len(R["trail"]) > 14:
+            del R["trail"][0]
+        try:
+            execute(call)
+        except Exception as ex:  # noqa
+            bad("tiles:%s:call" % fmt, "%s: %s raised %r" % (mode, list(call), ex), {"format": fmt, "mode": mode, "history": list(R["trail"])})
+            return False
+        return compare(call, nxt)
+
+    init = (fmt, mode, -1, -1, (0, 0), (0, 0))
+    if init not in graph:
+        raise RuntimeError("TLC tables lack the initial state for %s/%s" % (fmt, mode))
+    todo = dict((st, list(edges)) for st, edges in graph.items())
+    left = sum(len(v) for v in todo.values())
+
+    def nearest(start):
+        """nearest state with an unvisited call, through calls already replayed (they are executed again for real)"""
+        prev = {start: None}
+        dq = collections.deque([start])
+        while dq:
+            st = dq.popleft()
+            if todo[st]:
+                return st, prev
+            for call, nx in graph[st]:
+                if nx not in prev:
+                    prev[nx] = (st, call)
+                    dq.append(nx)
+        return None, prev
+
+    reset()
+    cur = init
+    while left and stats["bad"] < 40:
+        if todo[cur]:
+            call, nx = todo[cur].pop()
+            left -= 1
+            if step(call, nx):
+                cur = nx
+            else:
+                reset()
+                cur = init
+            continue
+        goal, prev = nearest(cur)
+        if goal is None:                  # e.g. stored integer tiles never go away: start over in a fresh directory
+            reset()
+            cur = init
+            goal, prev = nearest(cur)
+            if goal is None:
+                break
+        pathcalls = []
+        st = goal
+        while prev[st] is not None:
+            pst, call = prev[st]
+            pathcalls.append((call, st))
+            st = pst
+        cur = goal
+        for call, nx in reversed(pathcalls):
+            if not step(call, nx):
+                reset()
+                cur = init
+                break
+    stats["unvisited"] = left
+    return tag, "%s/%s" % (fmt, mode), stats, problems
+
+
+# ------------------------------------------------------------------------------------------------
+
+def dump_pair_tables(ctx, r, job):
+    def tup(x):
+        return tuple(tup(y) for y in x) if isinstance(x, list) else x
+    graph, src = {}, {}
+    nedge = 0
+    for rec in r.json_lines("P"):
+        st = tup(rec["s"])
+        key = (st[0], st[1])
+        edges = [(("open", e[0], e[1]), tup(e[2])) for e in rec["open"]]
+        edges += [(("mut", e[0], e[1], e[2]), tup(e[3])) for e in rec["mut"]]
+        edges += [(("close", e[0]), tup(e[1])) for e in rec["close"]]
+        graph.setdefault(key, {})[st] = edges
+        src[key] = rec["src"]
+        nedge += len(edges)
+    path = os.path.join(ctx.scratch, "%s.pkl" % job["name"])
+    with open(path, "wb") as f:
+        pickle.dump({"graph": graph, "src": src, "h": job["h"], "w": job["w"]}, f, protocol=pickle.HIGHEST_PROTOCOL)
+    return graph, path, nedge
+
 
 def dump_buf_tables(ctx, r, job):
     """TLC's tables of one BufSpec run -> one pickle per mode class; returns {class: (path, states, transitions)}."""
@@ -642,10 +888,10 @@ def _run(ctx, pool, rng, quick):
     t22, t23 = mask_tiles(2, 2), mask_tiles(2, 3)
     jobs = []
     if quick:
-        jobs.append(buf_job("MCBuf22", 2, 2, t22, {(0,) * 4}, fancy_sample(rng, 2, 2, 40), ["slice"], True, 8))
+        jobs.append(buf_job("MCBuf22", 2, 2, t22, {(0,) * 4}, fancy_sample(rng, 2, 2, 24), ["slice"], True, 8))
         pri = sorted(t23)
-        pr23 = {(0,) * 6, pattern(2, 3)} | set(rng.sample(pri, 10))
-        sr23 = {pattern(2, 3), (2,) * 6} | set(rng.sample(pri, 8))
+        pr23 = {(0,) * 6, pattern(2, 3)} | set(rng.sample(pri, 6))
+        sr23 = {pattern(2, 3), (2,) * 6} | set(rng.sample(pri, 6))
         jobs.append(buf_job("MCBuf23", 2, 3, sr23, pr23, fancy_sample(rng, 2, 3, 30), ["slice"], False, 3))
         ftiles = t22
     else:
@@ -654,6 +900,10 @@ def _run(ctx, pool, rng, quick):
         jobs.append(buf_job("MCBuf23", 2, 3, t23, t23, fancy_sample(rng, 2, 3, 150), ["slice"], False, 6))
         ftiles = all_tiles(4)
     jobs.append(file_job("MCFile", 2, 2, ftiles, ["png", "npy", "fits"], 2 if quick else 4))
+    if quick:
+        jobs.append(pair_job("MCPair", 1, 2, ["F32", "U8", "RGBA"], ["npy"], [(1, 2), (2, 0)], 2))
+    else:
+        jobs.append(pair_job("MCPair", 1, 2, MODES, ["npy", "png"], [(1, 2), (2, 0), (2, 1), (0, 1)], 4))
     done = start_tlc_jobs(ctx, jobs, timeout=6000)
     # ---- as the TLC jobs finish: tables to files, replay tasks to the pool
     pending = []
@@ -680,6 +930,13 @@ def _run(ctx, pool, rng, quick):
             for m in MODES:
                 if CLASS_OF[m] in out:
                     pending.append(("buf", pool.apply_async(replay_buffer, ((job["name"], m, out[CLASS_OF[m]][0]),))))
+        elif job["kind"] == "pair":
+            graph, path, nedge = dump_pair_tables(ctx, r, job)
+            if not graph:
+                ctx.machinery("TLC emitted no states of the two-position machine")
+            edges[job["name"]] = dict(("%s/%s" % k, {"states": len(g), "transitions": sum(len(x) for x in g.values())}) for k, g in graph.items())
+            for (fmt, m) in sorted(graph):
+                pending.append(("pair", pool.apply_async(replay_pairs, ((job["name"], fmt, m, fdir, path),))))
         else:
             ftab, path, nedge = dump_file_tables(ctx, r, job)
             if not ftab:
@@ -687,7 +944,7 @@ def _run(ctx, pool, rng, quick):
             edges[job["name"]] = dict((f, {"states": len(ftab[f]), "transitions": sum(len(x) for x in ftab[f].values())}) for f in ftab)
             for fmt in sorted(ftab):
                 nparts = {"png": 1, "npy": 5, "fits": 6}[fmt] if quick else {"png": 2, "npy": 24, "fits": 24}[fmt]
-                step = 4 if fmt == "fits" else 1
+                step = 4 if fmt == "fits" else (2 if (quick and fmt == "npy") else 1)
                 for p in range(nparts):
                     pending.append(("file", pool.apply_async(replay_files, ((job["name"], fmt, p, nparts, fdir, step, path),))))
     if failure is not None:
@@ -696,9 +953,10 @@ def _run(ctx, pool, rng, quick):
     ctx.exhaustive = True
     ctx.note("exhaustive_scope", "2x2 grid: every reachable buffer content x every call (all slice / reversed-slice indexer quadruples, "
              "%s pointwise indexers, %s source images) and every tile-file state x every call, in TLC and in the replay; 2x3 grid: calls "
-             "from a set of prior contents; fits histories: every 4th anchor state x every call"
-             % (("40 seeded", "all 16 defined/undefined patterns") if quick else ("all 625", "all 81")))
-    per_mode, per_fmt = {}, {}
+             "from a set of prior contents; fits histories: every 4th anchor state x every call (quick: npy every 2nd); two tile positions with two "
+             "live buffers on one PyramidIO (1x2 corner of the 256x256 buffers): every reachable state x every Open / Mutate / Close call"
+             % (("24 seeded", "all 16 defined/undefined patterns") if quick else ("all 625", "all 81")))
+    per_mode, per_fmt, per_pair = {}, {}, {}
     for kind, res in pending:
         tag, what, stats, problems = res.get()
         ctx.count(stats["calls"])
@@ -709,6 +967,10 @@ def _run(ctx, pool, rng, quick):
             pm["calls"] += stats["calls"]
             pm["chains"] += stats["loads"]
             pm["longest_chain"] = max(pm["longest_chain"], stats["chain_max"])
+        elif kind == "pair":
+            per_pair[what] = dict((k, stats[k]) for k in ("calls", "states", "via_update_image", "nested", "resets", "unvisited"))
+            if stats["unvisited"] and not stats["bad"]:
+                ctx.machinery("two-position replay left %d transitions unvisited for %s" % (stats["unvisited"], what))
         else:
             pf = per_fmt.setdefault(what, {"calls": 0, "writes": 0, "reads": 0})
             for k in pf:
@@ -719,6 +981,7 @@ def _run(ctx, pool, rng, quick):
             ctx.add_note("mismatches_not_listed", stats["bad"] - len(problems))
     ctx.note("buffer_replay", per_mode)
     ctx.note("file_replay", per_fmt)
+    ctx.note("two_position_replay", per_pair)
     # ---- a few written-out cases
     info, per = sample_src["info"], sample_src["per"]
     big = [j for j, A in enumerate(info["idx"][:info["nrect"]]) if len(A["by"]) * len(A["bx"]) == 2 and "rev" in A["f"]]
